@@ -314,9 +314,12 @@ class State:
             return
         seen = self.meta.get("anc_seen", {})
         work = []
+        def childless(a):
+            # J2 on a finite forest: a node with a descendant has a first and a last child
+            return a in self.nodes and (self.h0_link(a, "first_child") is None or self.h0_link(a, "last_child") is None)
         for k, val in self.anc.items():
             pb = self.h0_link(k[1], "parent") if k[1] in self.nodes else "unk"
-            if seen.get(k) != (val, pb):
+            if seen.get(k) != (val, pb, childless(k[0])):
                 work.append(k)
         if not work:
             return
@@ -338,9 +341,11 @@ class State:
             if a == b and val:
                 raise Infeasible("anc reflexive")
             pb = self.h0_link(b, "parent")
-            seen[(a, b)] = (val, pb)
+            seen[(a, b)] = (val, pb, childless(a))
             new = []
             if val:
+                if childless(a):
+                    raise Infeasible("a proper ancestor without children")
                 if self.anc.get((b, a)):
                     raise Infeasible("anc symmetric")
                 if pb is None:
